@@ -6,6 +6,7 @@
 //! framings (RFC 8277, 4364, 7432, 8955, 9552, 9012/sr-policy, 4684,
 //! draft-mpmz-bess-mup-safi).  It never calls into the code under test.
 
+#![allow(dead_code)]
 pub const HDR: usize = 19;
 
 #[derive(Clone, Debug)]
@@ -13,6 +14,9 @@ pub struct Frame {
     pub off: usize,
     pub len: usize,
     pub typ: u8,
+    /// diagnosis only: the header length field is `len` mod 65536 (the real
+    /// frame is longer than 65535 bytes)
+    pub wrapped: bool,
 }
 
 /// Split `buf` into frames by the 19-byte header only.  Returns the frames
@@ -28,8 +32,23 @@ pub fn split_frames(buf: &[u8]) -> (Vec<Frame>, Option<(usize, &'static str)>) {
         if buf[off..off + 16].iter().any(|b| *b != 0xff) {
             return (out, Some((off, "marker")));
         }
-        let len = u16::from_be_bytes([buf[off + 16], buf[off + 17]]) as usize;
+        let mut len = u16::from_be_bytes([buf[off + 16], buf[off + 17]]) as usize;
         let typ = buf[off + 18];
+        // Diagnosis aid (not part of the acceptance rule): a frame longer than
+        // 65535 bytes whose 16-bit length field wrapped.  Reported as an
+        // over-long frame instead of as a garbled stream.
+        let next_ok = |l: usize| off + l == buf.len() || (off + l + 16 <= buf.len() && buf[off + l..off + l + 16].iter().all(|b| *b == 0xff));
+        if (len < HDR || off + len > buf.len() || !next_ok(len)) && off + len + 65536 <= buf.len() && next_ok(len + 65536) && (1..=5).contains(&typ) {
+            len += 65536;
+            out.push(Frame {
+                off,
+                len,
+                typ,
+                wrapped: true,
+            });
+            off += len;
+            continue;
+        }
         if len < HDR {
             return (out, Some((off, "header-length-below-19")));
         }
@@ -39,7 +58,12 @@ pub fn split_frames(buf: &[u8]) -> (Vec<Frame>, Option<(usize, &'static str)>) {
         if !(1..=5).contains(&typ) {
             return (out, Some((off, "message-type")));
         }
-        out.push(Frame { off, len, typ });
+        out.push(Frame {
+            off,
+            len,
+            typ,
+            wrapped: false,
+        });
         off += len;
     }
     (out, None)
